@@ -87,7 +87,7 @@ def judge(data, imports_only=False):
     from fickling.analysis import check_safety
     from fickling.fickle import Pickled
 
-    ref = run_ref(data)
+    ref = run_ref(data, fix_imports=True)
     if not ref.ok:
         return None, "ref-reject", 0
     try:
